@@ -108,6 +108,11 @@ def apply_fault(fault, data, payload=None):
             return wire.pkt(bytes([fault[1] & 0xff]) + payload[1:]), None
         if k == 'payload':
             return wire.pkt(j2b(fault[1])), None
+        if k == 'pad_legal':
+            # the legal padding length closest above the wanted one (RFC 4253 6: 4..255 bytes, total a multiple of 8)
+            want = fault[1]
+            pad = next(q for q in list(range(want, 256)) + list(range(want, 3, -1)) if (len(payload) + 5 + q) % 8 == 0)
+            return wire.pkt(payload, pad=pad), None
         if k == 'pad':
             return wire.pkt(payload, pad=fault[1]), None
     if k.startswith('ssh1_'):
